@@ -1,18 +1,143 @@
 //! Harness for C17 (actions), C08 (owners/arena) and C10 (async derived values):
 //! `h_rx2 c17|c08|c10` read one case per line on stdin and print one observation per line.
+//!
+//! Every case runs on its own fresh thread (fresh thread-local state: harness context, executor
+//! queue, reactive_graph's current owner / observer) under a watchdog: a case that does not
+//! answer within `VERIF_CASE_TIMEOUT_MS` (default 5000) is reported as `!hang …`. A stuck thread
+//! cannot be killed and may hold a process-wide lock (a case that deadlocks on the arena lock
+//! blocks every later case), so after a hang the process replaces itself (`exec` of its own
+//! binary, same stdin / stdout: stdin is read without read-ahead for that reason) and goes on with
+//! the next case in a clean address space. `H_RX2_HANGS` carries the number of hangs so far across
+//! the restarts: from the third one on the watchdog is a tenth of the limit, so that a change
+//! making most cases hang does not take hours. If `exec` fails the stuck thread is leaked and the
+//! next case runs on a new thread. A panic is reported as `!panic …`.
 mod c08;
 mod c10;
 mod c17;
 mod exec;
 mod srvfn;
 
+use std::{
+    io::Write,
+    panic::{catch_unwind, AssertUnwindSafe},
+    sync::mpsc,
+    time::{Duration, Instant},
+};
+use vsexp::Sexp;
+
+fn panic_msg(e: Box<dyn std::any::Any + Send>) -> String {
+    let msg = e
+        .downcast_ref::<String>()
+        .cloned()
+        .or_else(|| e.downcast_ref::<&str>().map(|s| s.to_string()))
+        .unwrap_or_default();
+    format!("!panic {}", msg.replace('\n', " "))
+}
+
+/// one line from fd 0, read byte by byte: nothing beyond the line is consumed, so that a
+/// restarted process finds the remaining cases on the same stdin
+fn read_line() -> Option<String> {
+    use std::io::Read;
+    use std::os::fd::FromRawFd;
+    let mut f = std::mem::ManuallyDrop::new(unsafe { std::fs::File::from_raw_fd(0) });
+    let mut line = vec![];
+    let mut b = [0u8; 1];
+    loop {
+        match f.read(&mut b) {
+            Ok(0) => break,
+            Ok(_) if b[0] == b'\n' => return Some(String::from_utf8_lossy(&line).into_owned()),
+            Ok(_) => line.push(b[0]),
+            Err(e) if e.kind() == std::io::ErrorKind::Interrupted => {}
+            Err(_) => break,
+        }
+    }
+    if line.is_empty() {
+        None
+    } else {
+        Some(String::from_utf8_lossy(&line).into_owned())
+    }
+}
+
+/// replace this process (and its stuck thread) by a fresh one that continues with the next case
+fn restart(hangs: u32) {
+    use std::os::unix::process::CommandExt;
+    if let Ok(exe) = std::env::current_exe() {
+        let _err = std::process::Command::new(exe)
+            .args(std::env::args_os().skip(1))
+            .env("H_RX2_HANGS", hangs.to_string())
+            .exec();
+    }
+}
+
+/// same contract as `vsexp::drive` (one line per case, flushed at once), plus the watchdog
+fn drive(f: fn(&Sexp) -> Sexp, reset: fn()) {
+    std::panic::set_hook(Box::new(|_| {}));
+    let limit = Duration::from_millis(
+        std::env::var("VERIF_CASE_TIMEOUT_MS")
+            .ok()
+            .and_then(|v| v.parse().ok())
+            .unwrap_or(5000),
+    );
+    let mut hangs: u32 = std::env::var("H_RX2_HANGS").ok().and_then(|v| v.parse().ok()).unwrap_or(0);
+    let stdout = std::io::stdout();
+    let mut out = std::io::BufWriter::new(stdout.lock());
+    while let Some(line) = read_line() {
+        if line.trim().is_empty() {
+            continue;
+        }
+        match Sexp::parse(&line) {
+            Err(e) => writeln!(out, "!parse-error {e}").unwrap(),
+            Ok(c) => {
+                let (tx, rx) = mpsc::channel::<String>();
+                let h = std::thread::Builder::new()
+                    .name("case".into())
+                    .stack_size(32 << 20)
+                    .spawn(move || {
+                        let r = catch_unwind(AssertUnwindSafe(|| f(&c)));
+                        // leave nothing behind for the thread-local destructors: what a panicking
+                        // case still holds (owners, handles, tasks) is released here
+                        let r2 = catch_unwind(AssertUnwindSafe(reset));
+                        let s = match (r, r2) {
+                            (Ok(v), Ok(())) => v.to_string(),
+                            (Err(e), _) | (_, Err(e)) => panic_msg(e),
+                        };
+                        let _ = tx.send(s);
+                    })
+                    .expect("spawn the case thread");
+                let cur = if hangs >= 3 { limit / 10 } else { limit };
+                match rx.recv_timeout(cur) {
+                    Ok(s) => {
+                        // let the thread end (thread-local destructors) before the next case starts
+                        let t0 = Instant::now();
+                        while !h.is_finished() && t0.elapsed() < limit {
+                            std::thread::yield_now();
+                        }
+                        writeln!(out, "{s}").unwrap()
+                    }
+                    Err(mpsc::RecvTimeoutError::Timeout) => {
+                        hangs += 1;
+                        writeln!(out, "!hang no answer within {} ms", cur.as_millis()).unwrap();
+                        out.flush().unwrap();
+                        restart(hangs);
+                    }
+                    Err(mpsc::RecvTimeoutError::Disconnected) => {
+                        writeln!(out, "!panic the case thread ended without an answer").unwrap()
+                    }
+                }
+            }
+        }
+        out.flush().unwrap();
+    }
+    out.flush().unwrap();
+}
+
 fn main() {
     let sub = std::env::args().nth(1).unwrap_or_default();
     exec::init();
     match sub.as_str() {
-        "c17" => vsexp::drive(c17::run),
-        "c08" => vsexp::drive(c08::run),
-        "c10" => vsexp::drive(c10::run),
+        "c17" => drive(c17::run, c17::reset),
+        "c08" => drive(c08::run, c08::reset),
+        "c10" => drive(c10::run, c10::reset),
         _ => {
             eprintln!("usage: h_rx2 c17|c08|c10");
             std::process::exit(2)
